@@ -23,6 +23,20 @@ def stepC15 (ts : List String) : String :=
           if s.isEmpty then "-" else ",".intercalate (s.map toString)
         | none => "err"
       | _ => "bad-op"
+    | "impf" :: mode :: rest =>
+      -- `impf <m|c> <bad> <from> <to> <limit>`: the merge of block `bad` fails (m) / the context is cancelled while it
+      -- is merged (c); the verdict and what a successful run stored
+      match rest.mapM String.toNat? with
+      | some [bad, frm, to, limit] =>
+        let fault : Fault := if mode = "m" then .mergeFails bad else .cancelDuringMerge bad
+        let code : SaveCode := { singleReturnsMergeError := Gen.C15.singleBranchReturnsMergeError, mergesIgnoreContext := Gen.C15.mergeLoopIgnoresContext }
+        match runF code fault c15FinalSave frm to limit with
+        | some (some l) =>
+          let s := sortBy (fun a b => decide (a ≤ b)) l
+          "ok " ++ (if s.isEmpty then "-" else ",".intercalate (s.map toString))
+        | some none => "err"
+        | none => "err"
+      | _ => "bad-op"
     | _ => "bad-op"
   | some _ => "bad-op"
 
